@@ -356,7 +356,7 @@ func (s *gSim) tamperOp(ni int, m gMut) {
 
 func (s *gSim) deleteOp(ni int, mn, mx uint64) {
 	s.nDel++
-	if s.nDel%5 == 0 {
+	if s.r.Intn(4) == 0 {
 		// the middleware's LastIndex read of the underlying store fails for this call
 		s.emit("l %x %x %x", ni, mn, mx)
 	} else {
